@@ -330,8 +330,52 @@ def judge_overlap(case):
     return ("held", None, res)
 
 
+def judge_restart(case):
+    """a line is submitted again later (not immediately), then a new interactive shell starts (cicada purges duplicate
+    texts at start-up) and submits one more line: every text is still there, and the texts are listed in the order of
+    their most recent submissions"""
+    sb = _sb
+    sb.clean_work()
+    rng = common.rng_for(case["seed"], "c18restart")
+    db = os.path.join(sb.home, "history.sqlite")
+    for f in (db, db + "-journal", db + "-wal"):
+        if os.path.exists(f):
+            os.unlink(f)
+    pool = ["vp_argv a", "vp_argv 'q %'", 'vp_argv "it\'s 100%"', "vp_argv b_2 ')' ; vp_argv --", "vp_argv é中", "vp_argv x\\;y"]
+    texts = rng.sample(pool, 3)
+    first = [texts[0], texts[1], texts[0]] if rng.random() < 0.6 else [texts[0], texts[1], texts[2], texts[1], texts[0]]
+    second = [rng.choice([texts[2] + " z", "vp_argv last"])]
+    res = {"typed": [first, second]}
+    for part in (first, second):
+        s = ptydrv.PtySession(sb)
+        try:
+            ok, _ = s.wait_prompt(15)
+            if not ok:
+                return ("inconclusive", "no prompt", res)
+            for text in part:
+                ok, _ = s.line(text, 15)
+                if not ok:
+                    if not s.alive():
+                        return ("violated", "C18:interactive:shell-died", res)
+                    return ("inconclusive", "prompt did not come back", res)
+            time.sleep(0.1)
+        finally:
+            s.close()
+    allsub = first + second
+    last_order = [t for i, t in enumerate(allsub) if t not in allsub[i + 1:]]
+    got = [r[1] for r in rows(db)]
+    res["rows_in_listing_order"], res["submitted"] = got, allsub
+    if got not in (allsub, last_order):
+        if sorted(set(got)) != sorted(set(allsub)):
+            return ("violated", "C18:interactive-restart:a-submitted-text-is-gone-or-changed", res)
+        return ("violated", "C18:interactive-restart:listing-is-not-in-the-order-of-the-most-recent-submissions", res)
+    return ("held", None, res)
+
+
 def _work(case):
     try:
+        if case["kind"] == "restart":
+            return judge_restart(case)
         if case["kind"] == "overlap":
             return judge_overlap(case)
         if case["kind"] == "pty":
@@ -352,7 +396,7 @@ def run(tier, seed):
                 "concurrent adders) issued by separate `cicada -c` processes from 12 working directories named with "
                 "' \" % _ \\ ; -- ) blanks and multi-byte text; texts and patterns over the same alphabet including "
                 "SQL-injection shaped strings; the database is created by a first interactive session; plus pty "
-                "sessions typing lines with leading blanks and immediate repeats, and pairs of overlapping sessions (a slow line submitted first, a quick line from a second session finishing earlier).  Non-trivial = always; distinct by seed.")
+                "sessions typing lines with leading blanks and immediate repeats, and pairs of overlapping sessions (a slow line submitted first, a quick line from a second session finishing earlier), and sessions that submit a line again later followed by a second interactive shell (start-up purge of duplicate texts).  Non-trivial = always; distinct by seed.")
     rep.assumptions = ["rows are read with python's sqlite3 after every mutating step", "LIKE is ASCII case-insensitive; "
                        "exact search results are only demanded for wildcard-free ASCII patterns"]
     rng = common.rng_for(seed, "C18")
@@ -364,6 +408,8 @@ def run(tier, seed):
         cases.append({"kind": "pty", "seed": rng.randrange(1 << 30)})
     for _ in range(100 if thorough else 16):
         cases.append({"kind": "overlap", "seed": rng.randrange(1 << 30)})
+    for _ in range(100 if thorough else 16):
+        cases.append({"kind": "restart", "seed": rng.randrange(1 << 30)})
     results = common.pmap(_work, cases, init=_init, initargs=(cicada,), chunksize=1)
     ops = {}
     for case, (verdict, sig, res) in zip(cases, results):
